@@ -287,7 +287,8 @@ GM                   = {gm:11.4f} [km**3/s**2]
                 duration = 0
 
             # Maneuver dates are written in the TIME_SYSTEM of the message
-            date = date.change_scale(cart.date.scale.name)
+            if date.scale.name != cart.date.scale.name:
+                date = date.change_scale(cart.date.scale.name)
 
             text += """{comment}
 MAN_EPOCH_IGNITION   = {date:{dfmt}}
@@ -414,7 +415,8 @@ def _dumps_xml(data, *, kep=True, **kwargs):
                 duration = 0
 
             # Maneuver dates are written in the TIME_SYSTEM of the message
-            date = date.change_scale(cart.date.scale.name)
+            if date.scale.name != cart.date.scale.name:
+                date = date.change_scale(cart.date.scale.name)
 
             man_epoch = ET.SubElement(mans, "MAN_EPOCH_IGNITION")
             man_epoch.text = date.strftime(DATE_FMT_DEFAULT)
